@@ -64,7 +64,7 @@ func coverSentences(m *ref.Model, l int) [][]string {
 }
 
 func runC10(c *Ctx) {
-	c.res.Rule = "CheckMnemonic on pairs of strings with equal CPython-NFKD: (a) every list word of every language in each alternative spelling (NFC, NFD, NFKC, full-width, every single-code-point compatibility/precomposed replacement of any substring; quick: a 1/16 slice of the latter) placed inside a reference-valid sentence (quick: one word count per word, thorough: all five) and inside a checksum-defective sentence; (b) whole 24-word cover sentences (every list word) respelled in NFC/NFD/NFKC/full-width; (c) valid sentences joined by every code point whose NFKD is U+0020; (d) all strings of Sigma^<=3 in their four normal forms x 3 languages. Oracle: identical verdict class for both members of a pair, and reference-valid sentences accepted in every spelling. distinct_nontrivial = distinct non-canonical spellings (strings differing from their canonical partner)"
+	c.res.Rule = "CheckMnemonic on pairs of strings with equal CPython-NFKD: (a) every list word of every language in each alternative spelling (NFC, NFD, NFKC, full-width, every single-code-point compatibility/precomposed replacement of any substring; quick: a 1/16 slice of the latter) placed inside a reference-valid sentence (quick: one word count per word, thorough: all five) and inside a checksum-defective sentence; (b) whole 24-word cover sentences (every list word) and sentences of the longest/shortest words at every count, respelled in NFC/NFD/NFKC/full-width; (c) valid sentences joined by every code point whose NFKD is U+0020; (d) all strings of Sigma^<=3 in their four normal forms x 3 languages. Oracle: identical verdict class for both members of a pair, and reference-valid sentences accepted in every spelling. distinct_nontrivial = distinct non-canonical spellings (strings differing from their canonical partner)"
 	c.Assume("CPython unicodedata (Unicode 14) decides which strings have equal NFKD forms; only assigned code points are used")
 	ds := newDistinctSet()
 	type job struct {
@@ -158,6 +158,15 @@ func runC10(c *Ctx) {
 	var wsl []ws
 	for l := 0; l < ref.NLang; l++ {
 		for _, w := range coverSentences(c.M, l) {
+			s := strings.Join(w, " ")
+			wsl = append(wsl, ws{l, s})
+			whole = append(whole, s)
+		}
+	}
+	// plus the sentences made of the longest / shortest words (size limits measured before or after
+	// normalisation bite here first)
+	for l := 0; l < ref.NLang; l++ {
+		for _, w := range extremeSentences(c.M, l) {
 			s := strings.Join(w, " ")
 			wsl = append(wsl, ws{l, s})
 			whole = append(whole, s)
